@@ -541,6 +541,26 @@ func (c *ctx) staleProbe() {
 	}
 }
 
+// hugeHolder (C11, S3): a struct of more than 64 KiB whose unknown-field holder lies beyond byte 65535: a sparse
+// message with two unknown fields is decoded into it (compared with the model), re-encoded and sized
+func (c *ctx) hugeHolder() {
+	for _, u := range c.accepted("huge") {
+		if !u.Holder {
+			continue
+		}
+		last := uint16(u.Fields[len(u.Fields)-1].ID)
+		tv := &TV{T: tSTRUCT, Fields: []TField{
+			{1, &TV{T: tI64, N: 7}}, {60001, &TV{T: tI32, N: 5}}, {last, &TV{T: tI64, N: 9}},
+			{60002, &TV{T: tSTRING, S: []byte("xy")}}}}
+		d := fresh(u)
+		ok, _, _ := c.h.opDec(u, tv.ser(nil), d, false)
+		if ok {
+			c.h.opEnc(u, d, encOpt{bufLen: -1})
+			c.h.opSize(u, d, false)
+		}
+	}
+}
+
 type argErrStorm struct {
 	L []int32          `frugal:"1,default,list<i32>"`
 	S []string         `frugal:"2,default,set<string>"`
